@@ -18,6 +18,14 @@ import Ark.Model.Proto
     ell      on the twisted Edwards curve, impl = RFC §6.7.1 followed by the rational map of Appendix D.1
     hash     on the curve, r·P = O, impl = RFC §3 hash_to_curve (`bad` for g1/g2, `note:` for toy suites with L ≠ 64)
     rfcvec.* the RFC's published vectors (JSON files of the repository) against the spec transcription and the model
+    h2f_xof  the free function `hash_to_field::<F, H: XofReader, SEC_PARAM>` on a reader that yields a given stream:
+             impl = RFC §5.2 steps 3–8 on that stream (zero-padded when too short), exactly m·L bytes requested;
+             the panic for L > 2048 (2048-byte stack buffer; SEC_PARAM is not bounded by the documentation) is a `note:`
+    cfg.* / chk.wb / new : `check_parameters` and `MapToCurveBasedHasher::new`.  Model = what the code does in a build
+             without debug assertions (`Ok(())`); verdict = the DOCUMENTED conditions ("Checks if `P` represents a valid
+             map", the doc comments of `SWUConfig` / `Elligator2Config`): a configuration that violates one and is accepted
+             gives `note:check_parameters accepted an invalid configuration (…)` (the property C13 as registered does not
+             cover `check_parameters`; the finding is reported separately).  The maps on such configurations: `note:`.
 -/
 namespace Ark.DrvC13
 open Ark Ark.Proto Ark.H2C
@@ -31,9 +39,19 @@ inductive Cfg where
 
 structure Cache where
   cfgs : List (String × Cfg) := []
+  /-- ids of the configurations that violate a documented condition of `check_parameters`, with the condition(s) -/
+  inv : List (String × String) := []
 
 def Cache.find (c : Cache) (id : String) : Option Cfg := (c.cfgs.find? (·.1 == id)).map (·.2)
-def Cache.put (c : Cache) (id : String) (g : Cfg) : Cache := ⟨(id, g) :: c.cfgs.filter (·.1 != id)⟩
+def Cache.put (c : Cache) (id : String) (g : Cfg) : Cache :=
+  { c with cfgs := (id, g) :: c.cfgs.filter (·.1 != id), inv := c.inv.filter (·.1 != id) }
+def Cache.invOf (c : Cache) (id : String) : Option String := (c.inv.find? (·.1 == id)).map (·.2)
+/-- record violated conditions (added to those already recorded for `id`) -/
+def Cache.markInv (c : Cache) (id : String) (why : List String) : Cache :=
+  if why.isEmpty then c
+  else
+    let old := match c.invOf id with | some w => [w] | none => []
+    { c with inv := (id, joinWith "; " (old ++ why)) :: c.inv.filter (·.1 != id) }
 
 /-! ### syntax -/
 
@@ -114,7 +132,44 @@ def validSw (a b zeta : F) : Bool := Rfc.sswuParamsOk X a b zeta
 
 /-- a would-be `bad` verdict on a configuration that violates the preconditions of the map is only a note -/
 def soften (valid : Bool) (v : String) : String :=
-  if !valid && v.startsWith "bad" then "note:invalid SWU parameters (see cfg.sw): " ++ v else v
+  if !valid && v.startsWith "bad" then "note:invalid SWU / isogeny parameters (see cfg.sw, chk.wb): " ++ v else v
+
+/-- the documented conditions of `SWUMap::check_parameters` / `SWUConfig` that `(a, b, zeta)` violates -/
+def swDocViolations (a b zeta : F) : List String :=
+  (if Rfc.isSquare X zeta then [if zeta = 0 then "ZETA = 0 is not a non-square" else "ZETA is a square"] else [])
+    ++ (if a = 0 then ["COEFF_A = 0"] else []) ++ (if b = 0 then ["COEFF_B = 0"] else [])
+
+/-- the documented conditions of `Elligator2Map::check_parameters` / `Elligator2Config` that the constants violate -/
+def ellDocViolations (ma mb z ksqinv jonk : F) : List String :=
+  (if Rfc.isSquare X z then
+      [if z = 0 then "Z = 0 is not a non-square (and `!Z.legendre().is_qr()` holds for 0: not caught in a debug build either)"
+       else "Z is a square"] else [])
+    ++ (if mb = 0 then ["Montgomery COEFF_B = 0 (1/COEFF_B² does not exist)"]
+        else (if ksqinv * (mb * mb) != 1 then ["ONE_OVER_COEFF_B_SQUARE ≠ 1/COEFF_B²"] else [])
+          ++ (if jonk * mb != ma then ["COEFF_A_OVER_COEFF_B ≠ COEFF_A/COEFF_B"] else []))
+
+/-- verdict of a `check_parameters` / `new` line: `viol` = the documented conditions violated by the configuration -/
+def chkVerdict (what : String) (viol : List String) (impl : String) : String :=
+  if viol.isEmpty then (if impl == "ok" then "ok" else "bad:" ++ what ++ " rejected a valid configuration: " ++ impl)
+  else if impl == "ok" then "note:" ++ what ++ " accepted an invalid configuration (" ++ joinWith "; " viol ++ ")"
+  else "ok"     -- rejected (Err, or the documented panic)
+
+/-- `chk.wb <id> <gen>`: `WBMap::<P>::check_parameters()` = `ISOGENY_MAP.apply(IsogenousCurve::GENERATOR)` (never `Err`), a
+    `debug_assert!` (compiled out), `SWUMap::<IsogenousCurve>::check_parameters().unwrap()` (always `Ok`).
+    Returns the model output and the violated documented conditions (image of the generator by the RFC's `iso_map`
+    on the codomain `(a, b)`; SWU conditions on `(a', b', zeta)`). -/
+def runChkWb (iso : Iso F) (a b a' b' zeta : F) (g : SwPt F) : String × List String :=
+  let m := isoApply iso g
+  let tag := match g, m with
+    | none, _ => "geninf"
+    | some _, .ok none => "genpole"
+    | _, _ => "gen"
+  let mstr := (match m with | .ok _ => "ok" | .panic => "panic") ++ " @" ++ tag
+  let img : SwPt F := match g with | none => none | some pt => Rfc.isoMap iso pt
+  let viol :=
+    (if swOnCurve a b img then [] else ["the isogeny maps the generator of the isogenous curve to " ++ swStr C img ++ ", not on the codomain"])
+      ++ (swDocViolations X a' b' zeta).map (fun w => "isogenous curve: " ++ w)
+  (mstr, viol)
 
 /-- `swu <id> <u>` -/
 def runSwu (valid : Bool) (a b zeta u : F) (impl : String) : String × String :=
@@ -152,7 +207,7 @@ def runWb (valid : Bool) (a' b' zeta : F) (iso : Iso F) (a b : F) (u : F) (impl 
   (mstr, soften valid verdict)
 
 /-- `ell <id> <u>` -/
-def runEll (tea ted ma mb z ksqinv jonk : F) (u : F) (impl : String) : String × String :=
+def runEll (valid : Bool) (tea ted ma mb z ksqinv jonk : F) (u : F) (impl : String) : String × String :=
   let m := ell2MapB X mb jonk ksqinv z u
   let mstr := match m with
     | .ok (P, tag) => pairStr C P ++ " @" ++ tag
@@ -164,7 +219,7 @@ def runEll (tea ted ma mb z ksqinv jonk : F) (u : F) (impl : String) : String ×
     | some P =>
       if !(teOnCurve tea ted P) then "bad:offcurve"
       else if P = spec then "ok" else "bad:want=" ++ pairStr C spec
-  (mstr, verdict)
+  (mstr, if !valid && verdict.startsWith "bad" then "note:invalid Elligator 2 parameters (see cfg.ell): " ++ verdict else verdict)
 
 /-- `cfg.ell`: Z a non-square, the two derived constants, the Montgomery ↔ Edwards relation -/
 def validEll (tea ted ma mb z ksqinv jonk : F) : Bool :=
@@ -314,6 +369,28 @@ def runH2f (p bits m sec n : Nat) (dst msg : List Nat) (impl : String) : String 
     else "note:L=" ++ toString (Rfc.paramL p sec) ++ "≠64: the expander is run with Z_pad of L bytes, RFC s_in_bytes=64"
   (h2fStr model ++ " @" ++ tag, verdict)
 
+/-- `h2f_xof <p> <bits> <m> <sec> <stream>`: model = `hashToFieldXof` on the harness's reader (`streamReader`);
+    spec = RFC 9380 §5.2 steps 3–8 on the stream (zero-padded on the right when shorter than `m·L`), `m·L` bytes requested -/
+def runH2fXof (p bits m sec : Nat) (stream : List Nat) (impl : String) : String × String :=
+  let model := hashToFieldXof streamReader p bits m sec (stream, 0)
+  let L := Rfc.paramL p sec
+  let need := Rfc.lenInBytes1 p m sec
+  let tag := (if stream.length < need then "short" else if stream.length == need then "exact" else "long")
+    ++ (match model with | .panic => ":panic" | _ => "")
+  let mstr := match model with
+    | .ok (cs, (_, cnt)) => eltStr cs ++ " " ++ hex cnt
+    | .panic => "panic"
+  let padded := stream ++ List.replicate (need - stream.length) 0
+  let specStr := eltStr (Rfc.hashToFieldOfBytes p m sec padded) ++ " " ++ hex need
+  let verdict :=
+    if bits != Rfc.ceilLog2 p then "bad:MODULUS_BIT_SIZE"
+    else if impl == specStr then "ok"
+    else if impl == "panic" && L > 2048 then
+      "note:hash_to_field (XofReader) panics for L=" ++ toString L ++ ">2048 (slice of the 2048-byte stack buffer; SEC_PARAM is not bounded by the documentation); rfc=" ++
+        (if specStr.length > 80 then "…" else specStr)
+    else "bad:want=" ++ specStr
+  (mstr ++ " @" ++ tag, verdict)
+
 /-! ### dispatch -/
 
 /-- instantiate the field of a configuration and run `k` on it -/
@@ -342,6 +419,11 @@ def run (cache : Cache) (op : String) (args : List String) (impl : String) : Opt
     let dst ← parseBytes? dst; let msg ← parseBytes? msg
     let (ms, v) := runH2f p bits m sec n dst msg impl
     out ms v
+  | "h2f_xof", [p, bits, m, sec, st] =>
+    let p ← parseHex? p; let bits ← parseHex? bits; let m ← parseHex? m; let sec ← parseHex? sec
+    let st ← parseBytes? st
+    let (ms, v) := runH2fXof p bits m sec st impl
+    out ms v
   | "parity", [p, _m, e] =>
     let _ ← parseHex? p
     let cs ← parseList? e
@@ -358,15 +440,18 @@ def run (cache : Cache) (op : String) (args : List String) (impl : String) : Opt
     let p ← parseHex? p; let m ← parseHex? m; let beta ← parseHex? beta
     let a ← parseList? a; let b ← parseList? b; let zeta ← parseList? zeta
     let cof ← parseHex? cof; let r ← parseHex? r
-    let valid ← withField p m beta fun X C => do
-      some (validSw X (← C.dec a) (← C.dec b) (← C.dec zeta))
+    let (valid, viol) ← withField p m beta fun X C => do
+      let a ← C.dec a; let b ← C.dec b; let zeta ← C.dec zeta
+      some (validSw X a b zeta, swDocViolations X a b zeta)
     let v :=
       if id == "g1iso" && !(isG1Iso p m a b zeta) then "bad:constants differ from RFC 9380 §8.8.1"
       else if id == "g2iso" && !(isG2Iso p m beta a b zeta) then "bad:constants differ from RFC 9380 §8.8.2"
-      else if valid then "ok"
+      else if valid then chkVerdict "check_parameters" [] impl
       else if id == "g1iso" || id == "g2iso" then "bad:invalid SWU parameters"
-      else "note:invalid SWU parameters (ZETA square, a·b = 0, or g(B/(ZETA·A)) not a non-zero square)"
-    some (cache.put id (.sw p m beta a b zeta cof r valid), "ok", v)
+      else if viol.isEmpty then
+        "note:invalid SWU parameters (g(B/(ZETA·A)) is not a non-zero square: RFC 9380 §6.6.2 criterion 4, not a condition of check_parameters)"
+      else chkVerdict "check_parameters" viol impl
+    some ((cache.put id (.sw p m beta a b zeta cof r valid)).markInv id viol, "ok", v)
   | "cfg.wb", [id, swid, a, b, heff, r, xn, xd, yn, yd] =>
     let a ← parseList? a; let b ← parseList? b; let heff ← parseHex? heff; let r ← parseHex? r
     let xn ← parseElts? xn; let xd ← parseElts? xd; let yn ← parseElts? yn; let yd ← parseElts? yd
@@ -377,16 +462,40 @@ def run (cache : Cache) (op : String) (args : List String) (impl : String) : Opt
       else if id == "g2" && !(a == [0, 0] && b == [4, 4] && heff == Rfc.g2HEff && r == Rfc.blsR && swid == "g2iso") then
         "bad:constants differ from RFC 9380 §8.8.2"
       else "ok"
-    some (cache.put id (.wb swid a b heff r xn xd yn yd), "ok", v)
+    let viol := match cache.invOf swid with | some w => ["isogenous curve " ++ swid ++ ": " ++ w] | none => []
+    some ((cache.put id (.wb swid a b heff r xn xd yn yd)).markInv id viol, "ok", v)
   | "cfg.ell", [id, p, m, beta, tea, ted, ma, mb, z, ksqinv, jonk, cof, r] =>
     let p ← parseHex? p; let m ← parseHex? m; let beta ← parseHex? beta
     let tea ← parseList? tea; let ted ← parseList? ted; let ma ← parseList? ma; let mb ← parseList? mb
     let z ← parseList? z; let ksqinv ← parseList? ksqinv; let jonk ← parseList? jonk
     let cof ← parseHex? cof; let r ← parseHex? r
-    let valid ← withField p m beta fun X C => do
-      some (validEll X (← C.dec tea) (← C.dec ted) (← C.dec ma) (← C.dec mb) (← C.dec z) (← C.dec ksqinv) (← C.dec jonk))
-    some (cache.put id (.ell p m beta tea ted ma mb z ksqinv jonk cof r), "ok",
-          if valid then "ok" else "note:invalid Elligator 2 parameters")
+    let (valid, viol) ← withField p m beta fun X C => do
+      let ma' ← C.dec ma; let mb' ← C.dec mb; let z' ← C.dec z; let ksqinv' ← C.dec ksqinv; let jonk' ← C.dec jonk
+      some (validEll X (← C.dec tea) (← C.dec ted) ma' mb' z' ksqinv' jonk', ellDocViolations X ma' mb' z' ksqinv' jonk')
+    let why := if !valid && viol.isEmpty then ["the twisted Edwards and Montgomery coefficients do not match (not checked, by design)"] else viol
+    some ((cache.put id (.ell p m beta tea ted ma mb z ksqinv jonk cof r)).markInv id why, "ok",
+          if valid then chkVerdict "check_parameters" [] impl
+          else if viol.isEmpty then "note:invalid Elligator 2 parameters"
+          else chkVerdict "check_parameters" viol impl)
+  -- `check_parameters` of a WB configuration with the generator of the isogenous curve; `MapToCurveBasedHasher::new`
+  | "chk.wb", [id, gen] =>
+    match ← cache.find id with
+    | .wb swid a b _ _ xn xd yn yd =>
+      match ← cache.find swid with
+      | .sw p m beta a' b' zeta _ _ _ =>
+        let (ms, viol) ← withField p m beta fun X C => do
+          let g : SwPt _ ← if gen == "inf" then some none else (parseSlashPair? C gen).map some
+          some (runChkWb X C (← decIso C xn xd yn yd) (← C.dec a) (← C.dec b) (← C.dec a') (← C.dec b') (← C.dec zeta) g)
+        -- (the violations of the isogenous curve were recorded by `cfg.wb` already)
+        let newViol := viol.filter fun w => !(w.startsWith "isogenous curve")
+        some (cache.markInv id newViol, ms, chkVerdict "check_parameters" viol impl)
+      | _ => none
+    | _ => none
+  | "new", [id] =>
+    -- `new` = `#[cfg(test)] M2C::check_parameters()?; Ok(Self {..})`: outside ark-ec's own unit tests the call is compiled out
+    let _ ← cache.find id
+    let viol := match cache.invOf id with | some w => [w] | none => []
+    out "ok" (chkVerdict "MapToCurveBasedHasher::new (check_parameters()? is under #[cfg(test)])" viol impl)
   -- maps ----------------------------------------------------------------------------------------
   | "swu", [id, u] =>
     let u ← parseList? u
@@ -402,6 +511,7 @@ def run (cache : Cache) (op : String) (args : List String) (impl : String) : Opt
     | .wb swid a b _ _ xn xd yn yd =>
       match ← cache.find swid with
       | .sw p m beta a' b' zeta _ _ valid =>
+        let valid := valid && (cache.invOf id).isNone
         let (ms, v) ← withField p m beta fun X C => do
           some (runWb X C valid (← C.dec a') (← C.dec b') (← C.dec zeta) (← decIso C xn xd yn yd) (← C.dec a) (← C.dec b) (← C.dec u) impl)
         out ms v
@@ -411,8 +521,9 @@ def run (cache : Cache) (op : String) (args : List String) (impl : String) : Opt
     let u ← parseList? u
     match ← cache.find id with
     | .ell p m beta tea ted ma mb z ksqinv jonk _ _ =>
+      let valid := (cache.invOf id).isNone
       let (ms, v) ← withField p m beta fun X C => do
-        some (runEll X C (← C.dec tea) (← C.dec ted) (← C.dec ma) (← C.dec mb) (← C.dec z) (← C.dec ksqinv) (← C.dec jonk) (← C.dec u) impl)
+        some (runEll X C valid (← C.dec tea) (← C.dec ted) (← C.dec ma) (← C.dec mb) (← C.dec z) (← C.dec ksqinv) (← C.dec jonk) (← C.dec u) impl)
       out ms v
     | _ => none
   -- full hashes ---------------------------------------------------------------------------------
